@@ -905,7 +905,7 @@ func init() {
 				}
 				c17History(c, n, m1, m2, c.Rng.Intn(2) == 0)
 			case 2:
-				if c.Case%16 == 14 {
+				if c.Case%16 == 10 {
 					c17ParkedAcrossLoss(c)
 					return
 				}
